@@ -93,7 +93,7 @@ func runC15(c *an.Ctx) {
 	c.Expect("C15.clean", "lookup functions with path parameters", len(r.scope), 5)
 	// functions to explore: scope + every function with a call into scope or a sink or a store to the induction fields
 	explore := map[*an.Fn]bool{}
-	for _, f := range p.Fns {
+	for _, f := range p.Units() {
 		if f.Body == nil || f.Pkg != p.Jet {
 			continue
 		}
@@ -468,19 +468,13 @@ func (r *c15) sites() {
 			// extends/import: the parsing template's own Name
 			ok := false
 			if sel, isSel := ref.(*ast.SelectorExpr); isSel && p.FieldKey(info, sel) == "Template.Name" {
-				if id, isId := an.Unparen(sel.X).(*ast.Ident); isId && an.ObjOf(info, id) == root.Sig.Recv() {
-					ok = true
-				}
+				ok = an.Norm(s.Fn, sel.X) == "$r" // the receiver itself (through helper receivers, if any)
 			}
 			c.Check(ok, "C15.sites", key, s.Call.Pos(), "extends/import resolve against the parsing template's own Name", "extends/import pass "+an.Str(ref)+" as the referrer instead of the parsing template's own Name: relative names resolve against the wrong directory")
 		case recvType == "*jet.Runtime":
 			ok := false
 			if sel, isSel := ref.(*ast.SelectorExpr); isSel && p.FieldKey(info, sel) == "NodeBase.TemplatePath" {
-				if id, isId := an.Unparen(sel.X).(*ast.Ident); isId {
-					if _, isParam := an.IsParam(root, an.ObjOf(info, id)); isParam {
-						ok = true
-					}
-				}
+				ok = strings.HasPrefix(an.Norm(s.Fn, sel.X), "$p") && !strings.ContainsAny(an.Norm(s.Fn, sel.X), ".(")
 			}
 			c.Check(ok, "C15.sites", key, s.Call.Pos(), "include resolves against the including node's TemplatePath", "include passes "+an.Str(ref)+" as the referrer instead of the include node's own TemplatePath")
 		default:
